@@ -118,7 +118,7 @@ var c04B2T = pbt.Register(pbt.Prop[C04B2T]{
 	Name: "C04BinTextBin",
 	Gen: func(t *rapid.T) C04B2T {
 		return C04B2T{
-			Tree: gen.Tree(t, gen.TreeOpts{MaxDepth: pbt.Pick(4, 6), MaxNodes: pbt.Pick(40, 200), FiniteOnly: true, NoBigStr: rapid.IntRange(0, 19).Draw(t, "big") > 0}),
+			Tree: gen.Tree(t, gen.TreeOpts{MaxDepth: pbt.Pick(4, 6), MaxNodes: pbt.Pick(40, 200), FiniteOnly: true, NoBigStr: rapid.IntRange(0, 7).Draw(t, "big") > 0}),
 			Via:  rapid.SampledFrom([]string{"root", "field", "rawstring"}).Draw(t, "via"),
 		}
 	},
